@@ -6,7 +6,7 @@ ROOT = os.path.dirname(os.path.dirname(os.path.abspath(__file__)))
 CHECKS = {
  "C04": dict(engine="E2-stateright",
    technique="explicit-state model checking: stateright BFS over all reachable states of the real Stack<u8>, each transition compared with a Vec+capacity reference model",
-   text="Complete reachable state graph of the real Stack for contents <= 6 (thorough 8) elements over 3 (4) values and capacities {0..4, MAX}; ~135 operations applied in every state (push, pop*, top*, discard, push_many, try_extend with honest and lying size hints, set_max_stack_size, queries); return value incl. Underflow payload, contents, size and max compared with the reference after every transition. This is the right level because the property quantifies over all histories and the state space is finite once contents are bounded.",
+   text="Complete reachable state graph of the real Stack for contents <= 7 (thorough 8) elements over 3 (4) values and capacities {0..4, MAX}; ~135 operations applied in every state (push, pop*, top*, discard, push_many, try_extend with honest and lying size hints, set_max_stack_size, queries); return value incl. Underflow payload, contents, size and max compared with the reference after every transition; plus long stacks (254..300 elements, thorough 126..1000, maxima around the size) x an operation list incl. bulk insertions of 255..300 elements, one and two steps deep. This is the right level because the property quantifies over all histories and the state space is finite once contents are bounded.",
    note="Trusted: stateright's BFS (cross-checked by a second run with another thread count), the 40-line reference model, u8 standing for all element types (code is parametric).",
    design="4/C04"),
 }
@@ -24,12 +24,12 @@ CHECKS["C02"] = dict(engine="E2-stateright + E3-bounded-exhaustive",
 
 CHECKS["C03"] = dict(engine="E3-bounded-exhaustive",
    technique="bounded-exhaustive enumeration of growth programs x capacities x step limits, each run on the real interpreter in a watched child process, with intrinsic bounds and PushRef admissibility as oracles",
-   text="All genomes up to 4 (thorough 5) genes over a 16-gene growth alphabet (DupBlock, exec Dup/Swap/Flush/StackDepth, IfElse, When, Close, literal pushes, int Dup/StackDepth, Multiply, Square, Power, PrintString) under 26 capacity configurations (0..4 globally and per stack, roomy) and every step limit 0..10 (0..20). Every run must return (a hang or process death is reported as a violation), keep every stack <= its maximum, execute at most `limit` print instructions, return the input unchanged at limit 0, and end with an error iff the reference says a push exceeds a capacity, with the final/carried state among those the reference admits (strict step accounting: one step per exec item). Plus a deep-nesting family: d nested conditional blocks for every d in 8..=300 and around 512 and 1024 (thorough: every d <= 514), four kinds, three capacity vectors, step limits around every phase boundary, compared exactly.",
+   text="All genomes up to 4 (thorough 5) genes over a 16-gene growth alphabet (DupBlock, exec Dup/Swap/Flush/StackDepth, IfElse, When, Close, literal pushes, int Dup/StackDepth, Multiply, Square, Power, PrintString) under 26 capacity configurations (0..4 globally and per stack, roomy) and every step limit 0..10 (0..20). Every run must return (a hang or process death is reported as a violation), keep every stack <= its maximum, execute at most `limit` print instructions, return the input unchanged at limit 0, and end with an error iff the reference says a push exceeds a capacity, with the final/carried state among those the reference admits (strict step accounting: one step per exec item). Plus a deep-nesting family: d nested conditional blocks for every d in 8..=300 and around 512 and 1024 (thorough: every d <= 514), four kinds, three capacity vectors, step limits around every phase boundary, compared exactly; long runs (flat programs of 255..300, thorough ..65537, literal pushes and a bounded exec-dup loop under step limits around 2^8, 2^9, 2^16); the wide operand value sweep of C01(d); all of it under a hang watchdog (a case that does not return within 60 s is a violation).",
    note="Trusted: PushRef and tolerance sets; nesting beyond the explored depths (1026) is a resource limit of the subject's recursive Clone/Drop and outside any enumerable bound.",
    design="4/C03")
 CHECKS["C05"] = dict(engine="E3-bounded-exhaustive",
    technique="bounded-exhaustive enumeration of all gene sequences up to length N, differential against a non-recursive reference parser plus reference-free structural checks",
-   text="All 6^0+...+6^7 (thorough 6^10) gene sequences over {Close, literal, DupBlock, When, Unless, IfElse} are converted by the real From<Plushy>; the tree must equal PlushyRef's, its depth-first reading must equal the genome with closes removed, and every opener must be followed by exactly its number of blocks with no block elsewhere; never a panic. Plus a deep-nesting family: a prefix opening d blocks (5 prefix kinds) for every d in 8..=300 and around 512, 1024 (thorough: every d <= 514 and around 4096, 32768, 65536), followed by every suffix of length <= 2 (3) and by close-k-levels-and-continue for k in d-2..=d+2.",
+   text="All 6^0+...+6^7 (thorough 6^10) gene sequences over {Close, literal, DupBlock, When, Unless, IfElse} are converted by the real From<Plushy>; the tree must equal PlushyRef's, its depth-first reading must equal the genome with closes removed, and every opener must be followed by exactly its number of blocks with no block elsewhere; never a panic. Plus a deep-nesting family: a prefix opening d blocks (5 prefix kinds) for every d in 8..=300 and around 512, 1024 (thorough: every d <= 514 and around 4096, 32768, 65536), followed by every suffix of length <= 2 (3) and by close-k-levels-and-continue for k in d-2..=d+2; plus long flat genomes: periodic patterns of period <= 3 with bounded nesting cut at lengths around 2^8, 2^9 (thorough ..2^16, 70000).",
    note="Trusted: PlushyRef (explicit stack of open blocks); instruction identity is irrelevant beyond its number of opens.",
    design="4/C05")
 
@@ -42,7 +42,7 @@ CHECKS["C06"] = mc("E1-choice-tree",
   "Trusted: the mixed alphabet reaches every decision of rand's range draws (range | 12) and every permutation of <= 4 shuffled items; rejection-sampling tails beyond the exploration horizon are cut and counted.", "4/C06")
 CHECKS["C07"] = mc("E1-choice-tree",
   "stateless model checking over the environment with exact probability laws: all word sequences of Grid(lcm(1..n)) explored on the real Tournament/Best/Worst, leaf weights accumulated as rationals and compared with the combinatorial law",
-  "Best/Worst on every population of size 1..6 over 3 values; Tournament(k) for every population of size n<=4 (thorough n<=5, k<=3) over 3 values with ties and every k=1..n: the winner-value law must equal [C(#<=v,k)-C(#<v,k)]/C(n,k) exactly, size-1 tournaments are uniform over positions, size-n tournaments return a maximum.",
+  "Best/Worst on every population of size 1..6 over 3 values; Tournament(k) for every population of size n<=4 and n=5 with k<=3 (thorough also n=6, k<=2) over 3 values with ties, every ordering of n<=5 distinct values, and a 9-member population family for the larger (n, k) up to n=7 within an execution budget: the winner-value law must equal [C(#<=v,k)-C(#<v,k)]/C(n,k) exactly, size-1 tournaments are uniform over positions, size-n tournaments return a maximum.",
   "Trusted: rand 0.9 samplers as characterised by the calibration run at start-up (exit 2 if it fails); ties are compared on value classes.", "4/C07")
 CHECKS["C08"] = mc("E1-choice-tree",
   "stateless model checking over the environment on the Rep(12!,K) alphabet (rand's shuffle consumes one number below 12! modulo s!), exact per-individual law against enumeration of all case orders",
@@ -50,19 +50,19 @@ CHECKS["C08"] = mc("E1-choice-tree",
   "Trusted: the calibrated shuffle characterisation; if the subject stops shuffling with rand the law is recomputed on the generic grid alphabet and only reported from an alphabet whose adequacy argument applies.", "4/C08")
 CHECKS["C09"] = mc("E3-fault-product on real rayon (tier A) + E4 rayon model (tier B when built)",
   "exhaustive fault/configuration enumeration on the real code with a schedule-independent oracle; schedules of real rayon are sampled by repetition (stated as a cap), exhaustive schedule exploration on an executable rayon model when mc_par builds",
-  "{serial_next, par_next} x population size 0..6 x failure plans {none, every single call, every pair} x rayon pool sizes 1..16, each executed 20 (thorough 200) times with a probe child maker that records the population it was shown and the random word it drew: size preserved, every child made from the unmodified previous population, pairwise distinct words, on error the population is identical (contents and buffer) and the error is an injected one.",
+  "{serial_next, par_next} x population size 0..6 x failure plans {none, every single call, every pair} x rayon pool sizes 1..16, each executed 20 (thorough 200) times with a probe child maker that records the population it was shown and the random word it drew: size preserved, every child made from the unmodified previous population, pairwise distinct words, on error the population is identical (contents and buffer) and the error is an injected one; larger populations (17..257, thorough ..1000) with a reduced failure product. Tier B: every schedule of the rayon model (split tree x interleaving x cancellation) for N <= 4 (5), bound to real rayon by trace inclusion of 23 000 (250 000) real traces.",
   "Real-rayon interleavings are not enumerated by tier A (evidence says exhaustive=false for that dimension); two honest 64-bit draws collide with probability < 2^-58.", "4/C09")
 CHECKS["C10"] = mc("E1-choice-tree + E3-bounded-exhaustive",
   "stateless model checking over the RNG (all grid word sequences) on tagged parents, plus exhaustive enumeration of all index/range arguments of the exchange primitives",
-  "TwoPointXo and UniformXo in 6 flavours x all length pairs 0..5 (thorough 0..8): error iff lengths differ; child gene i comes from a parent's position i; two-point: one contiguous segment and every segment [a,b) including those touching either end occurs over all streams, empty parents give an empty child; uniform: every mask has probability exactly 2^-l. crossover_gene / crossover_segment for all indices and ranges up to length+2 on all length pairs 0..4: in range => exactly the addressed genes swapped, out of range => Err and both genomes unchanged, never a panic.",
+  "TwoPointXo and UniformXo in 6 flavours x all length pairs 0..5 (thorough 0..8): error iff lengths differ; child gene i comes from a parent's position i; two-point: one contiguous segment and every segment [a,b) including those touching either end occurs over all streams, empty parents give an empty child; uniform: every mask has probability exactly 2^-l (concluded only when the draws are one 32-bit word per gene; otherwise support only). Per-leaf oracle also on every stream over the grid plus the extreme words 0 and all-ones (lengths <= 4). Long genomes (63..129, thorough 31..257): two-point with both cut points enumerated, uniform under every stream with at most 1 (2) non-default words over an alphabet with alternating bit-block words: every position from either parent, every pair of positions from different parents, every segment. crossover_gene / crossover_segment for all indices and ranges up to length+2 on all length pairs 0..4: in range => exactly the addressed genes swapped, out of range => Err and both genomes unchanged, never a panic.",
   "Trusted: Grid(l(l+1)) is exact for cut points drawn from 0..l and from 0..=l.", "4/C10")
 CHECKS["C11"] = mc("E1-choice-tree",
   "stateless model checking over the RNG: all grid word sequences, structural oracle on every leaf",
-  "WithRate / WithOneOverLength on position-tagged bits (Vec, Vector, Bitstring, through Mutate) and Umad (new / new_with_empty_rate / new_without_empty) on tagged Vector, Plushy and Bitstring genomes with a numbering gene generator, parent lengths 0..3 (thorough 0..4), lattice rates incl. 0, 1 and 2: positions preserved, survivors in order, at most one insertion per parent position, provenance of new genes, all boundary-rate identities.",
+  "WithRate / WithOneOverLength on position-tagged bits (Vec, Vector, Bitstring, through Mutate) and Umad (new / new_with_empty_rate / new_without_empty) on tagged Vector, Plushy and Bitstring genomes with a numbering gene generator, parent lengths 0..3 (thorough 0..4), lattice rates incl. 0, 1 and 2: positions preserved, survivors in order, at most one insertion per parent position, provenance of new genes, all boundary-rate identities (incl. 1/length on one gene); the same on every stream over the grid plus the extreme words 0 and all-ones (flips <= 3, UMAD <= 2 genes); UMAD on long parents (64..257, thorough 31..300) under every stream with at most 1 (2) non-default words: structure per leaf, every position kept and deleted, an insertion after every position.",
   "Structure is rate independent; the lattice reaches both outcomes of every coin.", "4/C11")
 CHECKS["C12"] = mc("E1-choice-tree",
   "stateless model checking over the RNG with exact probability laws (rationals) on lattice rates",
-  "WithRate/WithOneOverLength flip-mask laws, Umad output-genome laws (lengths 0,1,2; expected size l(1-d)(1+a); empty-parent rate), Bitstring::random / random_with_probability / BoolGenerator product laws, GeneGenerator close probability (explicit and 1/(n+1)) and uniform instruction choice for n=1..5, on rates {0,1/4,1/3,1/2,3/4,1}; every law compared exactly.",
+  "WithRate/WithOneOverLength flip-mask laws, Umad output-genome laws (lengths 0,1,2; expected size l(1-d)(1+a); empty-parent rate), Bitstring::random / random_with_probability / BoolGenerator product laws, GeneGenerator close probability (explicit and 1/(n+1)) and uniform instruction choice for n=1..5, whole random genomes of 0..2 (3) genes through the collection generator (product law over positions), on rates {0,1/4,1/3,1/2,3/4,1}; every law compared exactly. Long genomes (63..129, thorough 31..257): flips, bit generators and UniformXo under every stream with at most 1 (2) non-default words: every gene with both outcomes, every pair of genes with different outcomes.",
   "Rates off the 1/12 lattice and sub-2^-24 rounding are outside the explored space.", "4/C12")
 CHECKS["C13"] = mc("E1-choice-tree + E3",
   "stateless model checking over the RNG with exact laws on marker selectors; exhaustive u32-boundary weight vectors for the builders",
@@ -74,7 +74,7 @@ CHECKS["C14"] = mc("E3-bounded-exhaustive x fault plans",
   "Error paths are compared through the derived Debug of ThenError/AndError/MapError.", "4/C14")
 CHECKS["C15"] = mc("E3-bounded-exhaustive",
   "small-scope exhaustive algebra: all pairs/triples over a boundary value domain, all short result vectors",
-  "All pairs and triples over {i64::MIN,-2,-1,0,1,2,i64::MAX} for Score/Error/TestResult (all six operators, cmp, partial_cmp, max/min, transitivity, antisymmetry, score-vs-error incomparability), all result vectors of length 0..3 over -2..2 plus extremes through both constructors and polarities, all pairs of those for TestResults/EcIndividual, and 5 scorers x 3 genome sources for IndividualGenerator/with_scorer/GenomeScorer.",
+  "All pairs and triples over {i64::MIN,-2,-1,0,1,2,i64::MAX} for Score/Error/TestResult (all six operators, cmp, partial_cmp, max/min, transitivity, antisymmetry, score-vs-error incomparability), all result vectors of length 0..3 over -2..2 plus all vectors of length 4 over {-1,0,1}, extremes and long vectors (255..300 elements) through both constructors and polarities, all pairs of those for TestResults/EcIndividual, and 5 scorers x 3 genome sources for IndividualGenerator/with_scorer/GenomeScorer.",
   "Value types with unlawful Ord are outside the property.", "4/C15")
 CHECKS["C16"] = mc("E1-choice-tree (replay obligation)",
   "stateless model checking: every explored leaf of every scenario is replayed from its recorded choice sequence and must reproduce observation and draw trace; process-level digest comparison; all input declaration orders",
@@ -82,11 +82,11 @@ CHECKS["C16"] = mc("E1-choice-tree (replay obligation)",
   "'All seeds' is covered as all word sequences of the scenario's alphabet, capped at 20,000 leaves per scenario (reported).", "4/C16")
 CHECKS["C17"] = mc("E3 x E1 (own harness crate) + rustc compile probe fallback",
   "exhaustive enumeration of all 140 generated wrapper types x implementations x arguments x grid word sequences, leaf-by-leaf replay of the concrete operator against the erased form",
-  "5 erasable traits x 7 pointer types x {-, Send, Sync, Send+Sync} x 3 wrapped implementations (no draws / data-dependent draws / failing): identical result (pointer / genome / value), identical error text, identical draw trace. If a flavour stops implementing its trait the C17 crate no longer builds and scripts/c17_probe.py identifies the missing flavours with one cargo check.",
+  "5 erasable traits x 7 pointer types x {-, Send, Sync, Send+Sync} x 5 wrapped implementations (no draws / data-dependent draws / failing for certain arguments / failing depending on one drawn word / on two drawn words): identical result (pointer / genome / value), identical error text, identical draw trace, identical number of calls reaching the wrapped implementation. If a flavour stops implementing its trait the C17 crate no longer builds and scripts/c17_probe.py identifies the missing flavours with one cargo check.",
   "Trusted: rustc for the fallback probe.", "4/C17")
 CHECKS["C18"] = mc("E1-choice-tree",
   "stateless model checking over the RNG with exact laws",
-  "All 16 conversion flavours (Vec/&Vec/array/&array/slice, into/to, OneOfCloning/Choose/ChooseCloning, constructors, uniform_distribution_of!) x source sizes 0..5 (6) x all 60 grid words: empty source rejected at construction, num_choices == len, each member exactly 1/len (borrowing flavours: a reference into the source); collection generators for Vec, Bitstring, Plushy and scored populations produce exactly size elements in generation order.",
+  "All 16 conversion flavours (Vec/&Vec/array/&array/slice, into/to, OneOfCloning/Choose/ChooseCloning, constructors, uniform_distribution_of!) x source sizes 0..5 (6) x all 60 grid words (vector/slice flavours also 7..257 (1000) members on the grid of their own size; membership also on every stream over the extreme words): empty source rejected at construction, num_choices == len, each member exactly 1/len (borrowing flavours: a reference into the source); collection generators for Vec, Bitstring, Plushy and scored populations produce exactly size elements in generation order (sizes 0..5 and around powers of two up to 257 (4096); nested collections 0..3 x 0..3).",
   "Trusted: calibrated Uniform / slice::Choose.", "4/C18")
 CHECKS["C19"] = mc("E5 type-state BFS + rustc, E3 run-time content (scripts/c19.py)",
   "explicit-state BFS over the builder type-state automaton (model) with every transition replayed against the implementation as judged by rustc (conformance), plus compiled execution of every complete call order up to a bound against the model",
